@@ -74,7 +74,9 @@ def server_case(role, service, first, second):
         connect = simpeer.hdr(1, 4, 33) + bytes([6, 19]) + b'urn:nfc:sn:handover'
         dsap = 16           # first name bound after sdp/snep
     script = {1: [connect], 4: [i_pdu(dsap, 33, 0, 0, first)]}
-    if second is not None:
+    if second is not None and second[:4] == b'PDU:':
+        script[7] = [second[4:]]            # a complete PDU, not an I PDU
+    elif second is not None:
         script[7] = [i_pdu(dsap, 33, 1, 0, second)]
     s, out, p = c07.peer_run(role, script, brk_at=12)
     return c07.judge_peer(s, out), s
@@ -182,6 +184,22 @@ def snep_units(tier):
             for second in (None, b'', m[len(m) // 2:], b'\xd0\x00\x00'):
                 server.append((role, 'handover', cls, m.hex(),
                                None if second is None else second.hex()))
+        # a complete Get request whose response is sent in fragments: what
+        # the client does instead of (or as) the Continue request
+        get = struct.pack('>BBLL', 0x10, 1, 7, 1024) + b'\xd0\x00\x00'
+        nxt = [('continue', b'\x10\x00\x00\x00\x00\x00'),
+               ('reject', b'\x10\x7f\x00\x00\x00\x00'),
+               ('continue-cut', b'\x10\x00\x00'), ('empty', b''),
+               ('junk', b'\xff' * 7), ('other-version', b'\x20\x00\0\0\0\0'),
+               ('get-again', get)]
+        for p_name, ptype in (('disc', 5), ('dm', 7), ('frmr', 8), ('rr', 13),
+                              ('rnr', 14), ('cc', 6), ('connect', 4)):
+            body = {7: b'\x00', 8: b'\x00' * 4, 13: b'\x01',
+                    14: b'\x01'}.get(ptype, b'')
+            nxt.append((p_name, b'PDU:' + simpeer.hdr(4, ptype, 33) + body))
+        for cls, second in nxt:
+            server.append((role, 'snep', 'get-fragmented|' + cls, get.hex(),
+                           second.hex()))
     client = []
     for role in roles:
         for cls, m in response_messages(tier):
